@@ -45,7 +45,8 @@ def plan(ctx):
     tab = table()
     cl = sorted(classes(tab))
     return [('single', i, 8, ctx['tier']) for i in range(8)] + [('pairs', i, len(cl), ctx['tier']) for i in range(len(cl))] + \
-           ([('triples', i, 16, ctx['tier']) for i in range(16)] if ctx['tier'] == 'thorough' else [])
+           ([('triples', i, 16, ctx['tier']) for i in range(16)] if ctx['tier'] == 'thorough' else []) + \
+           [('full-then-two', i, 8, ctx['tier']) for i in range(8)]
 
 
 def _canon(d):
@@ -229,7 +230,37 @@ def work(item):
     quick = tier != 'thorough'
     n = ok = 0
     skipped = set()
-    if kind == 'single':
+    if kind == 'full-then-two':
+        # a variable-length value at its maximum length followed by two more variable-length values (with and
+        # without separator): the place where "implicitly terminated" shortcuts go wrong
+        var = [(ai, fmt, typ, fnc1) for ai, fmt, typ, fnc1 in tab if fnc1]
+        seen_cls = set()
+        firsts = []
+        for ai, fmt, typ, fnc1 in var:
+            if (fmt, typ) in seen_cls:
+                continue
+            ws = [w for w in _wit(ai, fmt, typ, quick) if len(w) == maxlen(fmt, typ)]
+            if ws:
+                seen_cls.add((fmt, typ))
+                firsts.append((ai, fmt, typ, fnc1, ws[0]))
+        tails = [('21', 'X..20', 'str', True, 'S1'), ('22', 'X..20', 'str', True, 'V'), ('400', 'X..30', 'str', True, 'X'),
+                 ('401', 'X..30', 'str', True, 'Y'), ('37', 'N..8', 'int', True, '7'), ('10', 'X..20', 'str', True, 'B')]
+        for j, f in enumerate(firsts):
+            if j % nparts != idx:
+                continue
+            for a in tails:
+                for b in tails:
+                    if len({f[0], a[0], b[0]}) < 3:
+                        continue
+                    for sep in ('|', '\x1d', ''):
+                        items = [f, a, b]
+                        if not _fits(items, sep):
+                            items = [f, (a[0], a[1], a[2], a[3], (a[4] * 40)[:maxlen(a[1], a[2])] if a[2] == 'str' else '9' * maxlen(a[1], a[2])), b]
+                            if not _fits(items, sep):
+                                continue
+                        n += 1
+                        ok += evaluate(res, items, sep)
+    elif kind == 'single':
         for k, (ai, fmt, typ, fnc1) in enumerate(tab):
             if k % nparts != idx:
                 continue
